@@ -269,6 +269,11 @@ func (h *histRunner) step(st *histState, gap int64, x *explore.Exec, cookieVal s
 	}
 	resp := e.Do(harness.NewRequest("GET", path, hostA, hdr, nil))
 	obs := histObs{Served: resp.Served(), Status: resp.Status}
+	if path == "/oauth2/auth" {
+		// the sub-request endpoint of an auth_request-style front end: 202 lets the original request through
+		// (and so does any other 2xx there), everything else stops it
+		obs.Served = resp.Status >= 200 && resp.Status < 300
+	}
 	for _, c := range resp.Calls {
 		obs.Calls = append(obs.Calls, c.Endpoint+" -> "+c.Answer)
 	}
